@@ -61,6 +61,7 @@ type GhostDecl struct {
 	Name, Sort string
 	PkgPath    string
 	Default    string // value at freshly allocated references ("" = unknown)
+	Dispatch   bool   // reads through an interface case-split over the types that define a view of this ghost
 }
 
 type SpecDecl struct {
@@ -221,6 +222,10 @@ func parseContractSource(cs *ContractSet, file, src, pkgPath string) error {
 				return fmt.Errorf("%s:%d: bad ghost", rl.file, rl.line)
 			}
 			gd := &GhostDecl{Name: strings.TrimSpace(parts[0]), Sort: strings.TrimSpace(parts[1]), PkgPath: pkgPath}
+			if strings.HasSuffix(gd.Sort, " dispatch") {
+				gd.Dispatch = true
+				gd.Sort = strings.TrimSpace(strings.TrimSuffix(gd.Sort, " dispatch"))
+			}
 			if i := strings.Index(gd.Sort, " default "); i >= 0 {
 				gd.Default = strings.TrimSpace(gd.Sort[i+9:])
 				gd.Sort = strings.TrimSpace(gd.Sort[:i])
